@@ -19,7 +19,15 @@ import (
 	"time"
 )
 
-const VerifDir = "/verif"
+// VerifDir is the root of the verification tree (evidence, replays, known findings).
+var VerifDir = verifDir()
+
+func verifDir() string {
+	if d := os.Getenv("VERIF_DIR"); d != "" {
+		return d
+	}
+	return "/verif"
+}
 
 // HangSeconds is the per-case wall-time threshold of the watchdog.
 const HangSeconds = 10
